@@ -571,6 +571,11 @@ pub fn judge_nest_as(prop: &str, d: &NestDef, unit: &Value, p: &bpaf::OptionPars
 }
 
 fn judge(d: &Def, unit: &Value, p: &bpaf::OptionParser<Val>, argv: &[Tok], ctx: &mut Ctx) {
+    judge_as("C19", d, unit, p, argv, ctx)
+}
+
+/// the same comparison reported under another property (C02 runs the argument-led group too)
+pub fn judge_as(prop: &str, d: &Def, unit: &Value, p: &bpaf::OptionParser<Val>, argv: &[Tok], ctx: &mut Ctx) {
     let m = model(d, argv);
     let r = run(p, argv);
     let ok = match (&m, &r) {
@@ -603,7 +608,7 @@ fn judge(d: &Def, unit: &Value, p: &bpaf::OptionParser<Val>, argv: &[Tok], ctx: 
     sig.insert("model".to_string(), if m.is_some() { "accept" } else { "reject" }.to_string());
     sig.insert("observed".to_string(), r.class().to_string());
     ctx.violation(Violation {
-        property: "C19".into(),
+        property: prop.into(),
         rule: if m.is_some() { "contiguous-blocks-accepted-with-block-values" } else { "interrupted-or-short-block-fails" }.into(),
         sig,
         unit: unit.clone(),
